@@ -1,13 +1,14 @@
 ----------------------------- MODULE ReadPath -----------------------------
 (* One reader's acquisition steps against the publication steps of a writer,
    a buffer rotation, a flush (install version, then drop the frozen buffer)
-   and a compaction.  One user key; values = sequence numbers.
+   and a table compaction that drops shadowed entries below the oldest registered reader.  One user key; values = sequence numbers.
    db.go get / db_iter.go newRawIterator  vs  db_write.go writeLocked,
    db_state.go newMem/dropFrozenMem, db_compaction.go memCompaction.     *)
 EXTENDS Naturals, FiniteSets, TLC, FiniteSetsExt
 CONSTANTS MaxSeq, ReaderOrder,   \* "mems-then-version" (as coded) | "version-then-mems"
           WriterOrder,           \* "insert-then-publish" (as coded) | "publish-then-insert"
-          FlushOrder             \* "install-then-drop" (as coded) | "drop-then-install"
+          FlushOrder,            \* "install-then-drop" (as coded) | "drop-then-install"
+          ReaderPin              \* TRUE (as coded: the reader's sequence is registered in the snapshot list before anything else) | FALSE
 VARIABLES seq,        \* published sequence (db.seq)
           wseq,       \* highest sequence inserted into the mutable buffer
           mem, imm,   \* sets of sequence numbers (entries of the single key)
@@ -56,13 +57,23 @@ R3 == /\ rd.pc = "r2"
       /\ UNCHANGED <<seq, wseq, mem, imm, ver, tabs, fl>>
 RReset == /\ rd.pc = "done" /\ rd' = NoRd /\ UNCHANGED <<seq, wseq, mem, imm, ver, tabs, fl>>
 
+\* ---- table compaction (db_compaction.go tableCompactionBuilder.run): merges the tables; an entry is dropped when a newer
+\* entry of the key exists at or below minSeq = the oldest registered reader sequence, or db.seq if there is none.
+\* (A flush in progress pauses table compactions.)
+MinSeq == IF ReaderPin /\ rd.pc \in {"r1", "r2"} THEN rd.s ELSE seq
+Kept(S) == {x \in S : ~ \E y \in S : y > x /\ y <= MinSeq}
+Compact == /\ fl = "idle" /\ imm = {} /\ tabs[ver] # {}
+           /\ ver < MaxSeq + 2                      \* bound: at most two compactions beyond the flushes
+           /\ tabs' = tabs @@ ((ver + 1) :> Kept(tabs[ver])) /\ ver' = ver + 1
+           /\ UNCHANGED <<seq, wseq, mem, imm, fl, rd>>
+
 \* the drop-then-install mutant needs the frozen content after it was dropped: remember it
 F1m == /\ fl = "built" /\ FlushOrder = "drop-then-install"
        /\ rd' = [rd EXCEPT !.n = imm] /\ Drop /\ fl' = "half" /\ UNCHANGED <<seq, wseq, mem, ver, tabs>>
 
 Next == WInsert \/ WPublish \/ Rotate \/ FBuild
         \/ (FlushOrder = "install-then-drop" /\ F1) \/ F1m \/ F2
-        \/ R1 \/ R2 \/ R3 \/ RReset
+        \/ R1 \/ R2 \/ R3 \/ RReset \/ Compact
 Spec == Init /\ [][Next]_vars
 
 \* the answer is the model's value at the reader's sequence, which lies within [seq at call, seq at return]
